@@ -90,4 +90,10 @@ CLAIMS.update({
         "note": TB + " Cryptographic strength is assumed (ideal AEAD, fresh nonces).",
     },
 })
+CLAIMS.update({
+    "C16": {
+        "text": "Theorems every_interleaving_is_a_run / all_interleavings_are_runs (any number of round trips and the background programs they spawn, advanced one store/origin operation at a time by an arbitrary scheduler with arbitrary answers: a finished call's trace is an execution of its own program — hence every exchange-local theorem holds per call under every interleaving, instantiated for C01 and C18), background_ignores_returned_object (the background program depends on the entry handed to the caller only through its id and timestamps), structural_facts (regenerated: the two go statements, transport fields written only at construction). PARTIAL: data-race freedom is evidenced by the Go race detector on seeded concurrent histories with an adversarial caller, header snapshots before/after background completion and the provenance monitors on concurrent traces, not proved.",
+        "note": TB + " The Go memory model and scheduler are not modelled.",
+    },
+})
 NOT_APPLICABLE = {("C%02d" % i): "check not built yet (work in progress; DESIGN.md §10 gives the order of construction)" for i in range(1, 21)}
